@@ -10,32 +10,6 @@ import (
 // response goes through nbio's client Parser + ClientProcessor and through the
 // real net/http.ReadResponse (interpreted); what the two extract must agree.
 
-type verifSeenRes struct {
-	code         int
-	status       string
-	major, minor int
-	header       http.Header
-	cl           int64
-	body         []byte
-	trailer      http.Header
-}
-
-func verifSnapshotRes(r *http.Response) *verifSeenRes {
-	s := &verifSeenRes{code: r.StatusCode, status: r.Status, major: r.ProtoMajor, minor: r.ProtoMinor, header: r.Header, cl: r.ContentLength}
-	if r.Body != nil {
-		buf := make([]byte, 64)
-		for {
-			n, err := r.Body.Read(buf)
-			s.body = append(s.body, buf[:n]...)
-			if err != nil || n == 0 {
-				break
-			}
-		}
-	}
-	s.trailer = r.Trailer
-	return s
-}
-
 // shape 0: status line (code digits, reason phrase); 1: Content-Length body and
 // a free header; 2: chunked body with trailer
 func verifC07Response(shape int) {
